@@ -20,7 +20,7 @@ use crate::devices::{new_log, RAns, ScriptIo, ScriptPort, WAns, Line};
 use crate::props::c08::page_lists;
 use crate::props::c12::absorb_bfs;
 use crate::props::c16::{reply_due, replies as reply_lines};
-use crate::refmodel::{msg_str, own, ref_classify, ref_parse, ref_wire, RefParse, SIGN_TYPES};
+use crate::refmodel::{impl_decode_msg, impl_wire, msg_str, own, SIGN_TYPES};
 use crate::refsign::RefSign;
 use crate::report::{Acc, Ctx, Report, Violation};
 use crate::signsys::{alphabet_r2, flip, hashed_size, Alphabet};
@@ -204,16 +204,17 @@ pub fn make_wire(vbus: VirtualSignBus<'static>) -> Result<Wire, String> {
 /// Judges every bridge call recorded in the pipe: one decoded message in, a frame back iff the bus replied.
 fn judge_bridge(pipe: &Pipe, out: &mut Vec<V>) {
     for c in &pipe.calls {
-        match ref_parse(&c.line) {
-            RefParse::Accept { addr, typ, data } => {
-                let want = ref_classify(addr, typ, &data);
+        // "each decoded frame", "a line the bridge cannot decode": the codec is taken as given (Frame::from_bytes)
+        match impl_decode_msg(&c.line) {
+            None => {}
+            Some(Ok(want)) => {
                 if c.bus_calls.len() != 1 || c.bus_calls[0].0 != want {
                     out.push(("bridge-forwards-each-frame".into(), format!("{}-bus-calls", c.bus_calls.len().min(2)), format!("bridge read {} but the bus saw {:?}, expected exactly {}", show_bytes(&c.line), c.bus_calls.iter().map(|x| msg_str(&x.0)).collect::<Vec<_>>(), msg_str(&want))));
                     continue;
                 }
                 match &c.bus_calls[0].1 {
                     Some(reply) => {
-                        if c.written_back != ref_wire(reply) {
+                        if c.written_back != impl_wire(reply) {
                             out.push(("bridge-writes-back-iff-replied".into(), "reply-not-written".into(), format!("bus replied {} to {} but the bridge wrote {}", msg_str(reply), show_bytes(&c.line), show_bytes(&c.written_back))));
                         }
                     }
@@ -227,7 +228,7 @@ fn judge_bridge(pipe: &Pipe, out: &mut Vec<V>) {
                     out.push(("bridge-forwards-each-frame".into(), "error-on-valid-frame".into(), format!("bridge returned {:?} for the valid line {}", c.result, show_bytes(&c.line))));
                 }
             }
-            _ => {
+            Some(Err(_)) => {
                 if !c.bus_calls.is_empty() || c.result.is_ok() {
                     out.push(("undecodable-line-is-communication-error".into(), "bus-touched-or-ok".into(), format!("undecodable line {}: result {:?}, bus calls {}", show_bytes(&c.line), c.result, c.bus_calls.len())));
                 }
@@ -502,7 +503,7 @@ pub fn check_bridge(line: &[u8], reply: bool, fault: u8, j: usize) -> (String, V
     };
     let ncalls = *calls.borrow();
     let written = io.borrow().written.clone();
-    let decodable = matches!(ref_parse(line), RefParse::Accept { .. });
+    let decodable = !matches!(impl_decode_msg(line), Some(Err(_)));
     let outcome: String;
     if fault == 1 || !decodable {
         outcome = if fault == 1 { "read-fault".into() } else { "undecodable".into() };
@@ -541,7 +542,7 @@ pub fn check_bridge(line: &[u8], reply: bool, fault: u8, j: usize) -> (String, V
             if r.is_err() {
                 out.push(("bridge-forwards-each-frame".into(), "error-on-valid-frame".into(), format!("{}: result {:?}", desc, r)));
             }
-            let want = if reply { ref_wire(&reply_msg) } else { vec![] };
+            let want = if reply { impl_wire(&reply_msg) } else { vec![] };
             if written != want {
                 out.push(("bridge-writes-back-iff-replied".into(), if reply { "reply-not-written".into() } else { "wrote-without-reply".to_string() }, format!("{}: wrote {} expected {}", desc, show_bytes(&written), show_bytes(&want))));
             }
@@ -589,13 +590,13 @@ pub fn check_bridge_seq_cut(line1: &[u8], cut: Option<RAns>, line2: &[u8]) -> (S
         Err(p) => return ("panic".into(), vec![("no-panic".into(), p.class(), format!("{} panicked: {}", desc, p.message))]),
         Ok(x) => x,
     };
-    let first_ok = cut.is_none() && matches!(ref_parse(line1), RefParse::Accept { .. });
+    let first_ok = cut.is_none() && matches!(impl_decode_msg(line1), Some(Ok(_)));
     let calls2 = *calls.borrow() - calls1;
     let written2 = io.borrow().written[written1..].to_vec();
     let cls = if first_ok { "after-valid-line" } else if cut.is_some() { "after-unterminated-fragment" } else { "after-undecodable-line" };
     if calls2 != 1 || r2.is_err() {
         out.push(("bridge-forwards-each-frame".into(), format!("second-line:{}", cls), format!("{}: second call returned {:?}, the bus saw {} call(s) for it", desc, r2, calls2)));
-    } else if written2 != ref_wire(&reply_msg) {
+    } else if written2 != impl_wire(&reply_msg) {
         out.push(("bridge-writes-back-iff-replied".into(), format!("second-line:{}", cls), format!("{}: the reply to the second line was written as {}", desc, show_bytes(&written2))));
     }
     (cls.to_string(), out)
@@ -608,7 +609,7 @@ pub fn run(ctx: &Ctx) -> Report {
                 for all 11 sign types x both flip styles x addresses; (b) message level - the same over the R2 message alphabet extended with 0/1/15/254/255-byte chunks, each message sent down both paths; after every step results, replies and every sign's state/type/pages are compared and every bridge call is judged (one decoded message in, a frame back iff the bus replied); \
                 (c) every reply/malformed line of the C16 list x {bus replies, silent} x {no fault, read error at every call index, write error, bus error} injected at a bridge on a scripted port, and every such line followed by a valid second line through the SAME bridge (which must be forwarded and answered normally). distinct_nontrivial = distinct stored pair states + bridge runs"
         .into();
-    rep.trusted_base = vec!["the in-process duplex pipe (PortA/PortB in c17.rs)".into(), "bfs.rs".into(), "refmodel ref_parse/ref_classify/ref_wire for judging bridge calls".into(), "the sleep seam (pauses skipped)".into()];
+    rep.trusted_base = vec!["the in-process duplex pipe (PortA/PortB in c17.rs)".into(), "bfs.rs".into(), "the codec is taken as given when judging bridge calls (Frame::from_bytes + Message::from, Frame::to_bytes_with_newline)".into(), "the sleep seam (pauses skipped)".into()];
     let budget = ctx.clone();
     let deadline = move || budget.over_budget();
     let mut runs = vec![];
@@ -718,14 +719,7 @@ pub fn run(ctx: &Ctx) -> Report {
     let _ = nt;
     let mut xs = vec![];
     if rep.violations.is_empty() {
-        let sys = MsgWire { alpha: msg_alphabet(), automatic: false };
-        let name = sys.name();
-        let sr = crate::xcheck::stateright_unique_states(sys);
-        let mine = runs.iter().find(|r| r["run"] == json!(name)).and_then(|r| r["states"].as_u64()).unwrap_or(0);
-        xs.push(json!({"run": name, "stateright_unique_states": sr, "own_explorer_states": mine, "equal": sr == mine}));
-        if sr != mine {
-            rep.machinery_errors.push(format!("E5 cross-check: stateright found {} unique states for {}, the own explorer {}", sr, name, mine));
-        }
+        crate::xcheck::cross_check(&mut rep, &mut xs, &runs, MsgWire { alpha: msg_alphabet(), automatic: false });
     }
     rep.set("stateright_cross_check", Value::Array(xs));
     rep.set("bfs_runs", Value::Array(runs));
